@@ -34,18 +34,27 @@ EXPLANATION = (
     'unreadable coredata.dat) first replays meson-private/cmd_line.txt with read_cmd_line_file, and refuses only when that file is absent; '
     'R2c the readers of cmd_line.txt never index a section of the parsed file without a presence guard; '
     'R3 the decision table of MesonApp.validate_dirs equals the reference (meson-private without coredata.dat is accepted, '
-    '--wipe refused only without meson-private); R4a every call in msetup that publishes that state runs while `with DirectoryLock(...)` '
+    '--wipe refused only without meson-private; statement-level helpers of the same module - a block moved into a method or function, '
+    'NoReturn or with early returns - are spliced in before the table is read); R4a every call in msetup that publishes that state runs while `with DirectoryLock(...)` '
     'is held (here or at every call site); R4b every DirectoryLock implementation (its __enter__ together with the self-helpers it calls) '
-    'acquires through a kernel primitive on the open descriptor (flock/locking), failure to acquire being decided by that primitive only; '
+    'acquires through a kernel primitive on the open descriptor (flock/locking) whose flag expression requests an exclusive lock in every '
+    'alternative (locals, conditional rebinding, `|=`, helper returns, every value of a constant lookup table at class/module level), '
+    'failure to acquire being decided by that primitive only; '
     'R5 the namespace that read_cmd_line_file filled is the one the Interpreter is built from, and the replay dominates the construction; '
     'R6 wherever msetup copies or opens a recovery-critical file by name (the backup before a wipe), its absence in a partial build '
     'directory is survivable: a FileNotFoundError handler encloses the call or an existence test of that very name dominates it; '
     'R7 a file that a configuration-time function reads back with pickle/json.load and itself rewrites in place under the same symbolic '
     'name is read tolerantly (handler for what a torn file raises); in R2b the presence test of cmd_line.txt must name the very file the '
     'replay reads; R8 set_from_configure_command in msetup runs only behind a test that first_invocation is false (never on the fresh '
-    'CoreData of a recovery run). '
+    'CoreData of a recovery run); R9 every sub-directory of the build directory that Environment.__init__ creates (meson-private, '
+    'meson-logs, meson-info: the *_dir names class Environment declares) is created on every normal path that has a build directory - '
+    'only "no build directory" and "it exists already" may lead around the creation (a wipe killed in its deletion loop leaves a '
+    'configured directory without meson-logs/meson-info); R10 in OptionStore.set_option a rejection that depends on `.readonly` is '
+    'reachable only behind a test that the stored and the new value differ (the options of the interrupted command can be re-stated). '
     'A violation is reported only where every call/condition of the judged region was classified; otherwise the verdict is Undecided. '
-    'NOT decided: recoverability at each individual crash point; fsync/durability; torn *text* in cmd_line.txt (configparser.Error / '
+    'NOT decided: recoverability at each individual crash point; whether write_cmd_line_file records every [properties] key that '
+    'read_cmd_line_file replays (cross_file/native_file: writer/reader agreement is C08.R4c, not repeated here); which values '
+    'set_option/validate_value accept beyond the read-only test (C07); fsync/durability; torn *text* in cmd_line.txt (configparser.Error / '
     'literal_eval on a half-written line; unreachable once R1 holds); the order of publication between coredata.dat and cmd_line.txt (a '
     'first setup killed in between leaves a valid coredata.dat without cmd_line.txt: values survive, a later --wipe loses them); the '
     '--wipe deletion loop, which removes cmd_line.txt and the machine files by directory listing while their only copy is in a '
@@ -64,7 +73,8 @@ TECHNIQUE = ('who-may-write/rename/unlink over file names folded by flow-insensi
              'argument-binding summaries, caller contexts; nothing is executed) + CFG must-pass / edge-labelled reachability (with-exit before '
              'replace, presence-test edges, exception edges of the lock primitive, opt-out edges with helper return summaries) + path enumeration '
              'of handler bodies with helper expansion + decision table over canonical atoms with world enumeration (validate_dirs) + alias '
-             'identity and dominance (replayed namespace -> Interpreter)')
+             'identity and dominance (replayed namespace -> Interpreter) + E1 normal form (statement-level helpers spliced into the caller '
+             'before CFG/table extraction) + alternative sets of or-ed flag constants through locals and constant lookup tables')
 
 REFERENCE_PROTECTED = ('coredata.dat', 'cmd_line.txt')    # A.10; cross-checked against the derived reader set on every run
 PRIVATE_DIR = 'meson-private'
@@ -1343,14 +1353,216 @@ def _fs_test(ps: PathSym, ref: FuncRef, e: ast.AST, env: T.Dict[str, Terms], dep
     return None
 
 
+class _InlinedRef(FuncRef):
+    """A FuncRef whose body is the normal form built by _inline_helpers (locals of the inlined helpers included)."""
+
+    @property
+    def node(self) -> T.Any:
+        return self.__dict__['synth']
+
+
+class _Rename(ast.NodeTransformer):
+    def __init__(self, names: T.Dict[str, str], subst: T.Dict[str, ast.AST]):
+        self.names, self.subst = names, subst
+
+    def visit_Name(self, n: ast.Name) -> ast.AST:
+        if n.id in self.subst and isinstance(n.ctx, ast.Load):
+            import copy
+            return ast.copy_location(copy.deepcopy(self.subst[n.id]), n)
+        if n.id in self.names:
+            return ast.copy_location(ast.Name(id=self.names[n.id], ctx=n.ctx), n)
+        return n
+
+    def visit_alias(self, a: ast.alias) -> ast.AST:
+        bound = a.asname or a.name.split('.')[0]
+        if bound in self.names:
+            return ast.alias(name=a.name, asname=self.names[bound])
+        return a
+
+    def visit_ExceptHandler(self, h: ast.ExceptHandler) -> ast.AST:
+        self.generic_visit(h)
+        if h.name in self.names:
+            h.name = self.names[h.name]
+        return h
+
+
+def _bind_call(callee: FuncRef, call: ast.Call, caller_cls: T.Optional[ast.ClassDef]) -> T.Optional[T.Dict[str, ast.AST]]:
+    """Parameter -> argument expression of a call to a repository function (defaults filled in); None when not spelled out."""
+    fn = callee.node
+    if fn.args.vararg or fn.args.kwarg or any(isinstance(a, ast.Starred) for a in call.args) or any(k.arg is None for k in call.keywords):
+        return None
+    params = [a.arg for a in fn.args.posonlyargs + fn.args.args]
+    out: T.Dict[str, ast.AST] = {}
+    decos = set(decorator_names_of(fn))
+    f = call.func
+    in_class = '.' in callee.qn and callee.mod.has_cls(callee.qn.rsplit('.', 1)[0])
+    if in_class and 'staticmethod' not in decos and params:
+        recv = f.value if isinstance(f, ast.Attribute) else None
+        if isinstance(recv, ast.Name) and recv.id in ('self', 'cls'):
+            out[params[0]] = recv
+            params = params[1:]
+        elif isinstance(recv, ast.Call) and call_name(recv) == 'super' or recv is None:
+            return None
+        # Class.m(obj, ...): the receiver is the first positional argument
+    if len(call.args) > len(params):
+        return None
+    for prm, a in zip(params, call.args):
+        out[prm] = a
+    for k in call.keywords:
+        if k.arg in out or k.arg not in params + [a.arg for a in fn.args.kwonlyargs]:
+            return None
+        out[k.arg] = k.value     # type: ignore[index]
+    pos = fn.args.posonlyargs + fn.args.args
+    for a, d in zip(pos[len(pos) - len(fn.args.defaults):], fn.args.defaults):
+        out.setdefault(a.arg, d)
+    for a, d in zip(fn.args.kwonlyargs, fn.args.kw_defaults):
+        if d is not None:
+            out.setdefault(a.arg, d)
+    if any(a.arg not in out for a in pos + fn.args.kwonlyargs):
+        return None
+    return out
+
+
+def decorator_names_of(fn: ast.AST) -> T.List[str]:
+    return [(attr_chain(d.func if isinstance(d, ast.Call) else d) or '').split('.')[-1] for d in getattr(fn, 'decorator_list', [])]
+
+
+def _without_returns(stmts: T.List[ast.stmt]) -> T.Optional[T.List[ast.stmt]]:
+    """The body of a helper called for effect, with its early `return`s turned into if/else structure
+    (`if c: return` + rest  ==  `if c: pass` / `else: rest`); None when a return sits in a loop/try/with or carries a computed value."""
+    import copy
+    for i, st in enumerate(stmts):
+        if isinstance(st, ast.Return):
+            if st.value is not None and not isinstance(st.value, ast.Constant):
+                return None
+            return list(stmts[:i])
+        if not any(isinstance(n, ast.Return) for n in walk_no_nested(st)):
+            continue
+        if not isinstance(st, ast.If):
+            return None
+        rest = list(stmts[i + 1:])
+        yes = _without_returns(list(st.body) + rest)
+        no = _without_returns(list(st.orelse) + rest)
+        if yes is None or no is None:
+            return None
+        new = copy.copy(st)
+        new.body = yes or [ast.copy_location(ast.Pass(), st)]
+        new.orelse = no
+        return list(stmts[:i]) + [new]
+    return list(stmts)
+
+
+def _inline_helpers(ps: PathSym, ref: FuncRef, body: T.List[ast.stmt], depth: int = 2, stack: T.Tuple[str, ...] = (),
+                    counter: T.Optional[T.List[int]] = None, notes: T.Optional[T.List[str]] = None, strict: bool = True,
+                    only: T.Optional[T.Callable[[FuncRef], bool]] = None) -> T.List[ast.stmt]:
+    """Normal form for E1/E5 (a block moved into a helper of the same module): a statement `helper(...)` whose helper has no
+    `return` (or only early `return`s in if-structure, which are rewritten to if/else), and a statement `return helper(...)`, are replaced by the helper's body (parameters replaced by the argument
+    expressions, helper locals renamed apart).  A statement-level helper that both returns early and raises cannot be spliced
+    textually (a return inside a loop/try, a computed return value): Undecided.  Calls inside expressions are left alone (value helpers are read where their value is tested)."""
+    import copy
+    counter = [0] if counter is None else counter
+    notes = [] if notes is None else notes
+    cls = ps._class_of(ref)
+    out: T.List[ast.stmt] = []
+    for st in body:
+        call: T.Optional[ast.Call] = None
+        if isinstance(st, ast.Expr) and isinstance(st.value, ast.Call):
+            call = st.value
+        elif isinstance(st, ast.Return) and isinstance(st.value, ast.Call):
+            call = st.value
+        callee = ps.resolve_callee(ref, call) if call is not None else None
+        if callee is not None and callee.mod.rel == ref.mod.rel and isinstance(callee.node, ast.FunctionDef) and (only is None or only(callee)):
+            h = callee.node
+            inner = list(walk_no_nested(h))
+            has_ret = any(isinstance(n, ast.Return) for n in inner)
+            has_raise = any(isinstance(n, ast.Raise) for n in inner) or any(
+                isinstance(n, ast.Call) and (call_name(n) or '') in ('sys.exit', 'exit', 'os._exit') for n in inner)
+            odd = any(isinstance(n, (ast.Yield, ast.YieldFrom, ast.Await, ast.Global, ast.Nonlocal)) for n in inner) or \
+                any(isinstance(n, (ast.FunctionDef, ast.AsyncFunctionDef, ast.ClassDef)) for b in h.body for n in ast.walk(b))
+            binding = _bind_call(callee, call, cls) if call is not None else None
+            key = repr(callee)
+            hbody: T.Optional[T.List[ast.stmt]] = list(h.body)
+            if has_ret and isinstance(st, ast.Expr):
+                hbody = _without_returns(hbody)          # type: ignore[arg-type]
+            splice = not odd and binding is not None and depth > 0 and key not in stack and hbody is not None
+            if not splice:
+                if has_raise and isinstance(st, ast.Expr) and strict:
+                    raise Undecided(f'{ref.qn}: the statement `{short(st)}` calls a helper that can raise but cannot be inlined '
+                                    f'({"recursion/depth" if key in stack or depth <= 0 else "early returns, nested definitions or an unreadable argument list"})')
+                out.append(st)
+                continue
+            counter[0] += 1
+            pre = f'_h{counter[0]}_'
+            stored = {n.id for n in inner if isinstance(n, ast.Name) and isinstance(n.ctx, (ast.Store, ast.Del))}
+            for n in inner:
+                if isinstance(n, (ast.Import, ast.ImportFrom)):
+                    stored |= {a.asname or a.name.split('.')[0] for a in n.names}
+                elif isinstance(n, ast.ExceptHandler) and n.name:
+                    stored.add(n.name)
+            prologue: T.List[ast.stmt] = []
+            subst: T.Dict[str, ast.AST] = {}
+            names = {x: pre + x for x in stored}
+            for prm, arg in binding.items():
+                simple = isinstance(arg, ast.Constant) or attr_chain(arg) is not None
+                if simple and prm not in stored:
+                    subst[prm] = arg
+                else:
+                    names[prm] = pre + prm
+                    prologue.append(ast.copy_location(ast.Assign(targets=[ast.Name(id=pre + prm, ctx=ast.Store())], value=copy.deepcopy(arg), lineno=st.lineno), st))
+            rn = _Rename(names, subst)
+            spliced = [rn.visit(copy.deepcopy(b)) for b in (hbody or [])
+                       if not (isinstance(b, ast.Expr) and isinstance(b.value, ast.Constant) and isinstance(b.value.value, str))]
+            spliced = _inline_helpers(ps, callee, spliced, depth - 1, stack + (key,), counter, notes, strict, only)
+            notes.append(f'{short(st)} -> body of {callee.qn}')
+            out += prologue + spliced
+            if isinstance(st, ast.Return):
+                out.append(ast.copy_location(ast.Return(value=ast.Constant(value=None)), st))
+            continue
+        new = st
+        for field in ('body', 'orelse', 'finalbody'):
+            sub = getattr(st, field, None)
+            if isinstance(sub, list) and sub and isinstance(sub[0], ast.stmt):
+                if new is st:
+                    new = copy.copy(st)
+                setattr(new, field, _inline_helpers(ps, ref, sub, depth, stack, counter, notes, strict, only))
+        if getattr(st, 'handlers', None):
+            if new is st:
+                new = copy.copy(st)
+            hs = []
+            for hd in st.handlers:
+                h2 = copy.copy(hd)
+                h2.body = _inline_helpers(ps, ref, hd.body, depth, stack, counter, notes, strict, only)
+                hs.append(h2)
+            new.handlers = hs          # type: ignore[attr-defined]
+        out.append(new)
+    return out
+
+
+def _normal_form(ps: PathSym, mod: Module, qn: str, strict: bool = True,
+                 only: T.Optional[T.Callable[[FuncRef], bool]] = None) -> T.Tuple[FuncRef, T.Any, T.List[str]]:
+    """(ref, function, notes): the function with its statement-level helpers of the same module spliced in (E1/E5 normal form);
+    ref.node is that function, so PathSym reads the locals of the spliced helpers too."""
+    import copy
+    fn0 = mod.func(qn)
+    notes: T.List[str] = []
+    fn = copy.copy(fn0)
+    base = FuncRef(mod, qn)
+    fn.body = _inline_helpers(ps, base, fn0.body, stack=(repr(base),), notes=notes, strict=strict, only=only)
+    ref: FuncRef = _InlinedRef(mod, qn)
+    ref.__dict__['synth'] = fn
+    return ref, fn, notes
+
+
 def r3(ctx: RuleCtx) -> None:
     mod = ctx.repo.module(MSETUP)
     qn = 'MesonApp.validate_dirs'
-    fn = mod.func(qn)
-    ref = FuncRef(mod, qn)
+    mod.func(qn)
     ps = PathSym(ctx.repo)
+    ref, fn, inlined = _normal_form(ps, mod, qn)       # E1/E5 normal form: statement-level helpers spliced in
     pure = {'exists', 'isdir', 'isfile', 'join', 'listdir', 'Path', 'is_dir', 'is_file', 'iterdir', 'any', 'list'}
     tab = tables.extract(fn, pure=pure, name=qn)
+    if inlined:
+        ctx.note(f'{qn}: read with these helper statements inlined: {"; ".join(inlined)}')
 
     def classify(a: Atom) -> T.Optional[T.Tuple[str, bool]]:
         """(reference variable, atom is its negation)"""
@@ -1554,39 +1766,163 @@ def r4_generate(ctx: RuleCtx) -> None:
     ctx.floor('calls that publish recovery-critical state in msetup', sites, 1)
 
 
-def _flag_names(ps: PathSym, fn: ast.AST, e: ast.AST, seen: T.Optional[T.Set[str]] = None,
-                resolver: T.Optional[T.Callable[[ast.Call], T.Optional[T.List[T.Tuple[ast.AST, ast.AST]]]]] = None) -> T.Tuple[T.Set[str], bool]:
-    """(attribute names the flag expression is built from, through locals; whether all of it was understood)."""
-    seen = set() if seen is None else seen
-    out: T.Set[str] = set()
-    closed = True
-    for n in ast.walk(e):
-        if isinstance(n, ast.Attribute):
-            out.add(n.attr)
-        elif isinstance(n, ast.Call):
-            rets = resolver(n) if resolver is not None else None
-            if rets is None:
-                closed = False
-            else:
-                for fn2, rv in rets:
-                    o2, c2 = _flag_names(ps, fn2, rv, set(), resolver)
-                    out |= o2
-                    closed = closed and c2
-        elif isinstance(n, ast.Name):
-            if n.id in seen or n.id in ('fcntl', 'msvcrt', 'os', 'self'):
-                continue
-            seen.add(n.id)
-            defs = ps.local_defs(fn).get(n.id, [])   # type: ignore[arg-type]
-            if not defs:
-                closed = False
-            for d in defs:
-                if d is None:
-                    closed = False
-                else:
-                    o2, c2 = _flag_names(ps, fn, d, seen, resolver)
-                    out |= o2
-                    closed = closed and c2
-    return out, closed
+UNKNOWN_FLAG = '?'      # marker inside an alternative: some part of the flag expression was not read
+FLAG_MODULES = ('fcntl', 'msvcrt')
+Alt = T.FrozenSet[str]
+
+
+def _branch_path(mod: Module, node: ast.AST) -> T.Tuple[T.Tuple[int, str], ...]:
+    """The module-level if/try arms that enclose node (the platform switch of utils/platform.py), outermost first."""
+    pm = mod.parent_map()
+    out: T.List[T.Tuple[int, str]] = []
+    child, cur = node, pm.get(node)
+    while cur is not None:
+        for arm in ('body', 'orelse', 'finalbody'):
+            if isinstance(cur, (ast.If, ast.Try)) and any(child is st for st in getattr(cur, arm, [])):
+                out.append((id(cur), arm))
+        child, cur = cur, pm.get(cur)
+    return tuple(reversed(out))
+
+
+def _static_defs(ps: PathSym, mod: Module, cls: T.Optional[ast.ClassDef], e: ast.AST) -> T.Optional[T.Tuple[str, T.List[ast.AST]]]:
+    """Definitions of a class-level / module-level constant named by `e` (`self.X`, `cls.X`, `type(self).X`, `Class.X`, bare
+    `X`): (key, value expressions).  Class constants are looked up along the MRO; a module constant defined in several arms
+    of a module-level `if` is taken from the arm(s) the class lives in."""
+    name: T.Optional[str] = None
+    via_class = False
+    if isinstance(e, ast.Name):
+        name = e.id
+    elif isinstance(e, ast.Attribute):
+        v = e.value
+        if isinstance(v, ast.Name) and (v.id in ('self', 'cls') or (cls is not None and v.id == cls.name)):
+            name, via_class = e.attr, True
+        elif isinstance(v, ast.Call) and call_name(v) == 'type' and len(v.args) == 1 and isinstance(v.args[0], ast.Name) and v.args[0].id == 'self':
+            name, via_class = e.attr, True
+        elif isinstance(v, ast.Attribute) and v.attr == '__class__' and isinstance(v.value, ast.Name) and v.value.id == 'self':
+            name, via_class = e.attr, True
+    if name is None:
+        return None
+
+    def assigned(body: T.List[ast.stmt], deep: bool) -> T.List[T.Tuple[ast.stmt, ast.AST]]:
+        out: T.List[T.Tuple[ast.stmt, ast.AST]] = []
+        for st in body:
+            if isinstance(st, ast.Assign) and any(isinstance(t, ast.Name) and t.id == name for t in st.targets):
+                out.append((st, st.value))
+            elif isinstance(st, ast.AnnAssign) and st.value is not None and isinstance(st.target, ast.Name) and st.target.id == name:
+                out.append((st, st.value))
+            elif deep and isinstance(st, (ast.If, ast.Try)):
+                for arm in ('body', 'orelse', 'finalbody'):
+                    out += assigned(getattr(st, arm, []), True)
+                for h in getattr(st, 'handlers', []):
+                    out += assigned(h.body, True)
+        return out
+
+    if via_class and cls is not None:
+        for m2, c2 in ps.mro(mod, cls):
+            found = assigned(c2.body, True)
+            if found:
+                return f'{c2.name}.{name}', [v for _, v in found]
+        return None
+    if cls is not None and not via_class:
+        found = assigned(cls.body, True)            # a name used inside the class body itself
+        if found:
+            return f'{cls.name}.{name}', [v for _, v in found]
+    found = assigned(mod.tree.body, True)
+    if not found:
+        return None
+    if cls is not None and len(found) > 1:
+        here = _branch_path(mod, cls)
+        near = [(st, v) for st, v in found if _branch_path(mod, st) == here[:len(_branch_path(mod, st))]]
+        found = near or found
+    return name, [v for _, v in found]
+
+
+def _flag_alts(ps: PathSym, mod: Module, cls: T.Optional[ast.ClassDef], fn: T.Optional[ast.AST], e: ast.AST,
+               resolver: T.Optional[T.Callable[[ast.Call], T.Optional[T.List[T.Tuple[ast.AST, ast.AST]]]]] = None,
+               env: T.Optional[T.Dict[str, T.Set[Alt]]] = None, depth: int = 6) -> T.Set[Alt]:
+    """The alternatives of a lock-flag expression: one set of flag names (attributes of fcntl/msvcrt or-ed together) per way the
+    expression can be built - through locals (every definition is an alternative, `x = x | F` / `x |= F` extends the others),
+    conditional expressions, helper returns, and constant lookup tables at class or module level (every value of the table is
+    an alternative, whatever the key).  A part that was not read puts UNKNOWN_FLAG into the alternative."""
+    env = {} if env is None else env
+    unknown: T.Set[Alt] = {frozenset({UNKNOWN_FLAG})}
+    if depth <= 0:
+        return unknown
+
+    def rec(x: ast.AST, fn2: T.Optional[ast.AST] = fn, env2: T.Optional[T.Dict[str, T.Set[Alt]]] = None) -> T.Set[Alt]:
+        return _flag_alts(ps, mod, cls, fn2, x, resolver, env if env2 is None else env2, depth - 1)
+
+    def union(xs: T.Iterable[ast.AST], fn2: T.Optional[ast.AST] = fn) -> T.Set[Alt]:
+        out: T.Set[Alt] = set()
+        for x in xs:
+            out |= rec(x, fn2)
+        return out or unknown
+
+    def static(x: ast.AST) -> T.Optional[T.Set[Alt]]:
+        sd = _static_defs(ps, mod, cls, x)
+        if sd is None:
+            return None
+        key, vals = sd
+        if 'static:' + key in env:
+            return env['static:' + key]
+        out: T.Set[Alt] = set()
+        for v in vals:
+            out |= _flag_alts(ps, mod, cls, None, v, resolver, {**env, 'static:' + key: unknown}, depth - 1)
+        return out or unknown
+
+    if isinstance(e, ast.Call) and (call_name(e) or '').split('.')[-1] == 'cast' and len(e.args) == 2:
+        return rec(e.args[1])
+    if isinstance(e, ast.Call) and call_name(e) == 'int' and len(e.args) == 1:
+        return rec(e.args[0])
+    if isinstance(e, ast.BinOp) and isinstance(e.op, ast.BitOr):
+        return {a | b for a in rec(e.left) for b in rec(e.right)}
+    if isinstance(e, ast.IfExp):
+        return rec(e.body) | rec(e.orelse)
+    if isinstance(e, ast.NamedExpr):
+        return rec(e.value)
+    if isinstance(e, ast.Constant):
+        return {frozenset()} if e.value == 0 and not isinstance(e.value, bool) else unknown
+    if isinstance(e, ast.Attribute):
+        ch = attr_chain(e) or ''
+        if ch.count('.') == 1 and ch.split('.')[0] in FLAG_MODULES:
+            return {frozenset({e.attr})}
+        return static(e) or unknown
+    if isinstance(e, ast.Name):
+        if e.id in env:
+            return env[e.id]
+        defs = ps.local_defs(fn).get(e.id, []) if fn is not None else []      # type: ignore[arg-type]
+        if not defs:
+            return static(e) or unknown
+        selfref = [d for d in defs if d is not None and e.id in {n.id for n in ast.walk(d) if isinstance(n, ast.Name)}]
+        plain = [d for d in defs if d is not None and not any(d is s for s in selfref)]
+        cur: T.Set[Alt] = set(unknown) if any(d is None for d in defs) else set()
+        for d in plain:
+            cur |= rec(d, fn, {**env, e.id: unknown})
+        for _ in range(3):                   # `x = x | F`: F extends every alternative found so far
+            before = len(cur)
+            for d in selfref:
+                cur |= rec(d, fn, {**env, e.id: set(cur) or unknown})
+            if len(cur) == before:
+                break
+        return cur or unknown
+    if isinstance(e, ast.Subscript):
+        return rec(e.value) if isinstance(e.value, (ast.Dict, ast.Tuple, ast.List, ast.Name, ast.Attribute)) else unknown
+    if isinstance(e, ast.Dict):
+        return union([v for v in e.values if v is not None]) if all(k is not None for k in e.keys) else unknown
+    if isinstance(e, (ast.Tuple, ast.List)):
+        return union(e.elts)
+    if isinstance(e, ast.Call):
+        if isinstance(e.func, ast.Attribute) and e.func.attr == 'get' and 1 <= len(e.args) <= 2 and not e.keywords:
+            tab = rec(e.func.value)
+            return tab | (rec(e.args[1]) if len(e.args) == 2 else unknown)
+        rets = resolver(e) if resolver is not None else None
+        if rets is None:
+            return unknown
+        out: T.Set[Alt] = set()
+        for fn2, rv in rets:
+            out |= _flag_alts(ps, mod, cls, fn2, rv, resolver, {k: v for k, v in env.items() if k.startswith('static:')}, depth - 1)
+        return out or unknown
+    return unknown
 
 
 INERT_CALL_PREFIXES = ('mlog.', 'self.lockfile.', 'os.path.', 'os.fspath', 'T.cast')
@@ -1663,13 +1999,19 @@ class _LockImpl:
                 if isinstance(c, ast.Call) and call_name(c) in LOCK_PRIMS:
                     if not c.args or not any(ch == 'self.lockfile' or ch.startswith('self.lockfile.') for ch in chains_in(c.args[0])):
                         raise Undecided(f'{r.qn}: `{short(c)}` does not operate on self.lockfile')
-                    flags, closed = _flag_names(self.ps, r.node, c.args[1], None, self._helper_returns) if len(c.args) > 1 else (set(), False)
-                    if flags & set(UNLOCK_FLAGS):
+                    prim = call_name(c) or ''
+                    alts = _flag_alts(self.ps, self.mod, self.cls, r.node, c.args[1], self._helper_returns) if len(c.args) > 1 else {frozenset({UNKNOWN_FLAG})}
+                    unl = [a for a in alts if a & set(UNLOCK_FLAGS)]
+                    if unl:
+                        if len(unl) != len(alts):
+                            raise Undecided(f'{r.qn}: `{short(c)}` unlocks for some values of its flag expression and locks for others')
                         continue
-                    if not flags & set(LOCK_PRIMS[call_name(c) or '']):
-                        if not closed:
+                    bad = sorted((a for a in alts if not a & set(LOCK_PRIMS[prim])), key=sorted)
+                    if bad:
+                        read = [a for a in bad if UNKNOWN_FLAG not in a]
+                        if not read:
                             raise Undecided(f'{r.qn}: the flags of `{short(c)}` are computed by something the rule does not follow')
-                        self.bad_flags.append((r, c, flags))
+                        self.bad_flags.append((r, c, set(read[0])))
                         continue
                     out.append((n, c))
         self._prims[k] = out
@@ -1817,7 +2159,7 @@ def r4_lock(ctx: RuleCtx) -> None:
                         f'process leaves a stale lock behind', o)
         with_prims = [r for r in li.region.values() if li.prims(r)]
         for r, c, flags in li.bad_flags:
-            ctx.violation(r.mod, r.qn, c, f'`{short(c)}` does not request an exclusive lock (flags {sorted(flags)})', c)
+            ctx.violation(r.mod, r.qn, c, f'`{short(c)}` does not request an exclusive lock for every value of its flag expression (one alternative: {sorted(flags) or [0]})', c)
         if li.bad_flags:
             continue
         if not with_prims:
@@ -2165,6 +2507,282 @@ def r8_loaded_only(ctx: RuleCtx) -> None:
         raise Undecided('msetup: no call of set_from_configure_command found (the reconfigure path is spelled in a way the rule does not follow)')
 
 
+# ---------------------------------------------------------------------------
+# R9: the sub-directories of the build directory are re-created by every run
+
+CREATE_FUNCS = {'os.makedirs', 'os.mkdir'}
+EXIST_FUNCS = {'os.path.isdir', 'os.path.exists', 'os.path.lexists'}
+
+
+def _param_absent(defs: T.Dict[str, T.List[T.Optional[ast.AST]]], param: str, test: ast.AST, label: bool, seen: T.FrozenSet[str] = frozenset()) -> T.Optional[bool]:
+    """test == label implies `param` is None/empty: True / False; None = the test reads the parameter in a way not understood."""
+    if isinstance(test, ast.UnaryOp) and isinstance(test.op, ast.Not):
+        return _param_absent(defs, param, test.operand, not label, seen)
+    if isinstance(test, ast.Name):
+        if test.id == param:
+            return label is False
+        d = defs.get(test.id, [])
+        if test.id not in seen and len(d) == 1 and d[0] is not None:
+            return _param_absent(defs, param, d[0], label, seen | {test.id})
+        return False
+    if isinstance(test, ast.Compare) and len(test.ops) == 1 and isinstance(test.left, ast.Name) and test.left.id == param \
+            and isinstance(test.comparators[0], ast.Constant) and test.comparators[0].value in (None, ''):
+        if isinstance(test.ops[0], (ast.Is, ast.Eq)):
+            return label is True
+        if isinstance(test.ops[0], (ast.IsNot, ast.NotEq)):
+            return label is False
+    if any(isinstance(n, ast.Name) and n.id == param for n in ast.walk(test)):
+        if isinstance(test, ast.BoolOp):
+            vals = [_param_absent(defs, param, v, label, seen) for v in test.values]
+            every = (isinstance(test.op, ast.And) and label) or (isinstance(test.op, ast.Or) and not label)
+            if every and any(v is True for v in vals):
+                return True          # all operands hold on this edge, one of them says "absent"
+            if all(v is False for v in vals):
+                return False
+        return None
+    return False
+
+
+def r9_dirs(ctx: RuleCtx) -> None:
+    """A `setup --wipe` killed inside its deletion loop leaves meson-private/ (the directory still counts as configured) without
+    meson-logs/ or meson-info/; the re-run opens its log file in meson-logs/ straight away.  So whatever sub-directory of the
+    build directory Environment.__init__ creates, it creates whenever it is given a build directory: the only tests that may
+    lead around the creation are "no build directory" and "it exists already"."""
+    mod = ctx.repo.module(ENVIRONMENT)
+    qn = 'Environment.__init__'
+    ps = PathSym(ctx.repo)
+
+    def creates(fn: ast.AST) -> bool:
+        return any(isinstance(n, ast.Call) and (call_name(n) in CREATE_FUNCS or call_method(n) == 'mkdir') for n in walk_no_nested(fn))
+
+    ref, fn, inlined = _normal_form(ps, mod, qn, strict=False, only=lambda callee: creates(callee.node))
+    cfg = CFG(fn)
+    defs = ps.local_defs(fn)
+    params = params_of_fn(fn)
+    bparam = next((a for a in params if a == 'build_dir'), None) or (params[2] if len(params) > 2 else None)
+    if bparam is None:
+        raise Undecided(f'{qn}: no build directory parameter')
+
+    def sub_dirs(e: ast.AST) -> T.Set[str]:
+        out = set()
+        for t in ps.resolve(ref, e, {}):
+            if t[0] == 'join' and len(t[1]) == 2 and t[1][0] == P.opaque('param:' + bparam) and t[1][1][0] == 'const':
+                out.add(t[1][1][1])
+        return out
+
+    creators: T.Dict[str, T.List[Node]] = {}
+    for n in cfg.nodes:
+        e = n.expr()
+        if e is None or n.kind not in ('stmt', 'test'):
+            continue
+        for c in walk_no_nested(e):
+            if not isinstance(c, ast.Call):
+                continue
+            arg: T.Optional[ast.AST] = None
+            if call_name(c) in CREATE_FUNCS:
+                arg = _arg(c, 0, 'name', 'path')
+            elif call_method(c) == 'mkdir' and isinstance(c.func, ast.Attribute):
+                arg = c.func.value
+                if isinstance(arg, ast.Call) and (call_name(arg) or '').split('.')[-1] in ('Path', 'PurePath') and len(arg.args) == 1:
+                    arg = arg.args[0]
+            if arg is not None:
+                for d in sub_dirs(arg):
+                    creators.setdefault(d, []).append(n)
+    # the finite domain the source declares: the *_dir names of class Environment
+    declared = {}
+    for st in mod.cls('Environment').body:
+        if isinstance(st, (ast.Assign, ast.AnnAssign)) and st.value is not None and isinstance(st.value, ast.Constant) and isinstance(st.value.value, str):
+            for t in (st.targets if isinstance(st, ast.Assign) else [st.target]):
+                if isinstance(t, ast.Name) and t.id.endswith('_dir'):
+                    declared[t.id] = st.value.value
+    ctx.floor('directory names declared by class Environment', len(declared), 2)
+    lost = sorted(v for v in declared.values() if v not in creators)
+    if lost:
+        raise Undecided(f'{qn}: no creation of {lost} under the build directory found here or in its statement-level helpers (created elsewhere? not followed)')
+
+    def loop_must_create(head: Node, mine: T.List[Node], skip: T.Callable[[Node, Node, T.Any], bool]) -> T.Optional[bool]:
+        """A for-loop over a non-empty display whose body cannot be left (next item, break, fall out) without passing `mine`."""
+        lp = head.ast
+        it: T.Optional[ast.AST] = lp.iter          # type: ignore[union-attr]
+        if isinstance(it, ast.Name):
+            dd = defs.get(it.id, [])
+            it = dd[0] if len(dd) == 1 else None
+        if not isinstance(it, (ast.Tuple, ast.List, ast.Set)) or not it.elts or any(isinstance(x, ast.Starred) for x in it.elts):
+            return None          # how often the body runs is not known
+        inside = {id(x) for b in lp.body for x in ast.walk(b)}          # type: ignore[union-attr]
+        first = [cfg.nodes[b] for b, lab in cfg.succ[head.id] if lab == 'iter']
+        if any(f.id in {m.id for m in mine} for f in first):
+            return True
+        reach = cfg.reachable(first, avoid=mine, edge_ok=lambda a, b, lab: lab != 'exc' and not skip(a, b, lab), include_start=True)
+        return not any(cfg.nodes[i] is head or id(cfg.nodes[i].ast) not in inside for i in reach)
+
+    unread: T.List[str] = []
+    for d in sorted(creators):
+        def skip_ok(a: Node, b: Node, lab: T.Any, d: str = d) -> bool:
+            """the edge may lead around the creation: no build directory, or the directory exists already"""
+            if a.kind != 'test' or lab not in (True, False):
+                return False
+            test = a.ast.test          # type: ignore[union-attr]
+            pa = _param_absent(defs, bparam, test, lab)
+            if pa is None:
+                unread.append(short(test))
+            if pa:
+                return True
+            t2, l2 = test, lab
+            while isinstance(t2, ast.UnaryOp) and isinstance(t2.op, ast.Not):
+                t2, l2 = t2.operand, not l2
+            if isinstance(t2, ast.Name) and len(defs.get(t2.id, [])) == 1 and defs[t2.id][0] is not None:
+                t2 = defs[t2.id][0]          # type: ignore[assignment]
+            if isinstance(t2, ast.Call) and l2 is True:
+                x: T.Optional[ast.AST] = None
+                if call_name(t2) in EXIST_FUNCS and t2.args:
+                    x = t2.args[0]
+                elif call_method(t2) in ('is_dir', 'exists') and isinstance(t2.func, ast.Attribute) and not t2.args:
+                    x = t2.func.value
+                    if isinstance(x, ast.Call) and len(x.args) == 1:
+                        x = x.args[0]
+                if x is not None and d in sub_dirs(x):
+                    return True
+            return False
+
+        mine = list(creators[d])
+        loop_unknown = False
+        for h in cfg.nodes:
+            if h.kind == 'iter' and isinstance(h.ast, ast.For):
+                body_ids = {id(x) for b in h.ast.body for x in ast.walk(b)}
+                if any(id(m.ast) in body_ids for m in creators[d]):
+                    must = loop_must_create(h, creators[d], skip_ok)
+                    if must:
+                        mine.append(h)
+                    elif must is None:
+                        loop_unknown = True
+        reach = cfg.reachable([cfg.entry], avoid=mine, edge_ok=lambda a, b, lab: lab != 'exc' and not skip_ok(a, b, lab))
+        ok = cfg.exit_return.id not in reach
+        where = creators[d][0].ast
+        if not ok and (unread or loop_unknown):
+            raise Undecided(f'{qn}: {d}/ is created in a loop over something that is not a literal display, or behind tests on `{bparam}` the rule does not read ({sorted(set(unread))[:3]})')
+        ctx.require(ok, f'{qn}: every normal path with a build directory creates <build>/{d} (or finds it present)', mod, qn,
+                    f'create <build>/{d}',
+                    f'<build>/{d} is not created on every run: a normal path through {qn} with a build directory leads around `{short(where)}` by a test '
+                    f'that is neither "no build directory" nor "{d} exists".  A `setup --wipe` killed inside its deletion loop leaves a directory that is '
+                    f'still configured (meson-private/coredata.dat) but lacks {d}/; the re-run must re-create it', where)
+    if inlined:
+        ctx.note(f'{qn}: read with these helper statements inlined: {"; ".join(inlined)}')
+
+
+def params_of_fn(fn: T.Any) -> T.List[str]:
+    return [a.arg for a in fn.args.posonlyargs + fn.args.args]
+
+
+# ---------------------------------------------------------------------------
+# R10: the re-run of an interrupted command may state every option again
+
+OPTIONS = 'mesonbuild/options.py'
+CMP_INERT = {'isinstance', 'len', 'str', 'bool', 'int', 'repr', 'getattr', 'hasattr'}
+
+
+def r10_restated(ctx: RuleCtx) -> None:
+    """`meson setup --reconfigure <the options of the killed run>` passes every option through OptionStore.set_option with
+    first_invocation false (R8).  A rejection that depends on the option being read-only may therefore only happen when the
+    stored value and the new value were compared and differ; an unchanged read-only option (backend, vsenv) must be accepted."""
+    mod = ctx.repo.module(OPTIONS)
+    qn = 'OptionStore.set_option'
+    ps = PathSym(ctx.repo)
+
+    def mentions_readonly(fn: ast.AST) -> bool:
+        return any(isinstance(n, ast.Attribute) and n.attr == 'readonly' for n in walk_no_nested(fn))
+
+    ref, fn, inlined = _normal_form(ps, mod, qn, strict=False, only=lambda callee: mentions_readonly(callee.node))
+    cfg = CFG(fn)
+    defs = ps.local_defs(fn)
+    unread: T.List[str] = []
+
+    def expand(e: ast.AST, seen: T.FrozenSet[str] = frozenset()) -> T.List[ast.AST]:
+        """the expression and the definitions of the locals it reads (flow-insensitive)"""
+        out = [e]
+        for n in ast.walk(e):
+            if isinstance(n, ast.Name) and n.id not in seen:
+                for d in defs.get(n.id, []):
+                    if d is not None:
+                        out += expand(d, seen | {n.id})
+        return out
+
+    def polarities(e: ast.AST, seen: T.FrozenSet[str]) -> T.Set[bool]:
+        """{True}: truthy means "the values differ"; {False}: truthy means "equal"; through not / and / or / | / locals."""
+        if isinstance(e, ast.UnaryOp) and isinstance(e.op, ast.Not):
+            return {not x for x in polarities(e.operand, seen)}
+        if isinstance(e, ast.BoolOp):
+            return {x for v in e.values for x in polarities(v, seen)}
+        if isinstance(e, ast.BinOp) and isinstance(e.op, (ast.BitOr, ast.BitAnd)):
+            return polarities(e.left, seen) | polarities(e.right, seen)
+        if isinstance(e, ast.IfExp):
+            return polarities(e.body, seen) | polarities(e.orelse, seen)
+        if isinstance(e, ast.Compare) and len(e.ops) == 1 and isinstance(e.ops[0], (ast.Eq, ast.NotEq)) \
+                and not isinstance(e.left, ast.Constant) and not isinstance(e.comparators[0], ast.Constant):
+            return {isinstance(e.ops[0], ast.NotEq)}
+        if isinstance(e, ast.Name) and e.id not in seen:
+            return {x for d in defs.get(e.id, []) if d is not None for x in polarities(d, seen | {e.id})}
+        return set()
+
+    def flag_polarity(name: str) -> T.Optional[bool]:
+        """A local that records "the value changed": some definition is (built from) a comparison of two non-constant operands.
+        True: truthy means changed (`!=`); False: truthy means unchanged (`==`); None: not such a flag."""
+        pols = polarities(ast.Name(id=name, ctx=ast.Load()), frozenset())
+        return pols.pop() if len(pols) == 1 else None
+
+    def changed(test: ast.AST, label: bool) -> bool:
+        """test == label implies: the old and the new value were compared and differ."""
+        if isinstance(test, ast.UnaryOp) and isinstance(test.op, ast.Not):
+            return changed(test.operand, not label)
+        if isinstance(test, ast.BoolOp):
+            every = (isinstance(test.op, ast.And) and label) or (isinstance(test.op, ast.Or) and not label)
+            return any(changed(v, label) for v in test.values) if every else all(changed(v, label) for v in test.values)
+        if isinstance(test, ast.Compare) and len(test.ops) == 1 and isinstance(test.ops[0], (ast.Eq, ast.NotEq)) \
+                and not isinstance(test.left, ast.Constant) and not isinstance(test.comparators[0], ast.Constant):
+            return isinstance(test.ops[0], ast.NotEq) == label
+        if isinstance(test, ast.Name):
+            pol = flag_polarity(test.id)
+            if pol is not None:
+                return pol == label
+            d = defs.get(test.id, [])
+            if len(d) == 1 and d[0] is not None and not isinstance(d[0], ast.Name):
+                return changed(d[0], label)
+            return False
+        return False
+
+    def opaque_calls(test: ast.AST, seen: T.FrozenSet[str] = frozenset()) -> T.List[str]:
+        """helper calls among the boolean operands of a test (also behind a local named once) whose result might encode the comparison"""
+        if isinstance(test, ast.UnaryOp) and isinstance(test.op, ast.Not):
+            return opaque_calls(test.operand, seen)
+        if isinstance(test, ast.BoolOp):
+            return [c for v in test.values for c in opaque_calls(v, seen)]
+        if isinstance(test, ast.Name) and test.id not in seen and flag_polarity(test.id) is None:
+            d = defs.get(test.id, [])
+            return opaque_calls(d[0], seen | {test.id}) if len(d) == 1 and d[0] is not None else []
+        if isinstance(test, ast.Call) and (call_name(test) or '').split('.')[-1] not in CMP_INERT:
+            return [short(test)]
+        return []
+
+    ro_tests = [n for n in cfg.nodes if n.kind == 'test' and any(isinstance(x, ast.Attribute) and x.attr == 'readonly' for e in expand(n.ast.test) for x in ast.walk(e))]   # type: ignore[union-attr]
+    raises = [n for n in cfg.nodes if n.kind == 'stmt' and isinstance(n.ast, ast.Raise) and ro_tests and cfg.is_reachable(n) and cfg.dominated_by_any(n, ro_tests)]
+    if not raises:
+        raise Undecided(f'{qn}: no rejection that depends on `.readonly` found here or in its statement-level helpers (the read-only check is spelled in a way the rule does not follow)')
+    for r in raises:
+        reach = cfg.reachable([cfg.entry], edge_ok=lambda a, b, lab: not (a.kind == 'test' and lab in (True, False) and changed(a.ast.test, lab)))   # type: ignore[union-attr]
+        ok = r.id not in reach
+        if not ok:
+            unread += [c for t in cfg.nodes if t.kind == 'test' and cfg.dominated_by_any(r, [t]) for c in opaque_calls(t.ast.test)]   # type: ignore[union-attr]
+        if not ok and unread:
+            raise Undecided(f'{qn}: `{short(r.ast)}` is not behind a value comparison the rule can read, but {sorted(set(unread))[:3]} may be one')
+        ctx.require(ok, f'{qn}: the read-only rejection `{short(r.ast)}` is reachable only where the old and the new value were found to differ', mod, qn,
+                    'read-only rejection without a changed-value test',
+                    f'`{short(r.ast)}` can be reached without a test that the stored and the new value differ: re-stating a read-only option with its current '
+                    f'value (`meson setup --reconfigure -Dbackend=ninja` after a first setup that was killed once coredata.dat existed) is rejected, the '
+                    f'interrupted command cannot be repeated', r.ast)
+    if inlined:
+        ctx.note(f'{qn}: read with these helper statements inlined: {"; ".join(inlined)}')
+
+
 RULES = [
     Rule('C09.R1', 'recovery-critical files are published atomically (temp + closed + os.replace), never opened in place', r1),
     Rule('C09.R2a', 'pickle_load converts truncated-pickle errors into MesonException', r2_pickle),
@@ -2177,4 +2795,6 @@ RULES = [
     Rule('C09.R6', 'copies/reads of recovery-critical files in msetup survive their absence', r6_backup),
     Rule('C09.R7', 'files read back by the function that rewrites them in place are read tolerantly', r7_readback),
     Rule('C09.R8', 'the configure-command options are applied only to a loaded coredata', r8_loaded_only),
+    Rule('C09.R9', 'Environment re-creates the sub-directories of the build directory on every run', r9_dirs),
+    Rule('C09.R10', 'a read-only option is rejected only when its value changes (the interrupted command can be repeated)', r10_restated),
 ]
